@@ -1,7 +1,8 @@
 //! C04: untrusted bytes never crash the reader. Every case runs in a forked child with a panic hook,
 //! a counting allocator (flags any single request above 4 MiB + 16·len) and RLIMIT_AS, with a logger
 //! at Debug level installed (some code only runs when logging is enabled).
-//! `hostile BYTES` → `parse=<c> meta=<c> acc=<c> digests=<c> sig=<c> keyids=<c> files=<c>` with
+//! `hostile BYTES` → `parse=<c> meta=<c> acc=<c> fmt=<c> digests=<c> sig=<c> keyids=<c> files=<c>` (fmt = the `Display` /
+//! `Debug` impls of Header, IndexEntry, IndexData, Lead, PackageMetadata on the parsed values) with
 //! c ∈ ok | err | panic | skip; or `abort` (child died) / `alloc-excess`; plus `iter=<k>:<classes>:<fnv>|runaway|err|panic|skip`:
 //! a consumer that keeps pulling items after an error (collect / filter_map) must see the iterator END (runaway = more
 //! than the header's file count + 16 items were produced); otherwise the number of items it saw, their Ok / Err classes
@@ -55,6 +56,13 @@ impl rpm::signature::Verifying for RejectAll {
     fn algorithm(&self) -> rpm::signature::AlgorithmType { rpm::signature::AlgorithmType::RSA }
 }
 
+/// discards what is written, counts it
+struct FmtSink(u64);
+impl std::io::Write for FmtSink {
+    fn write(&mut self, b: &[u8]) -> std::io::Result<usize> { self.0 += b.len() as u64; Ok(b.len()) }
+    fn flush(&mut self) -> std::io::Result<()> { Ok(()) }
+}
+
 fn cls<T, E>(r: Result<Result<T, E>, String>) -> &'static str {
     match r { Ok(Ok(_)) => "ok", Ok(Err(_)) => "err", Err(_) => "panic" }
 }
@@ -78,6 +86,23 @@ fn stages(bytes: &[u8]) -> String {
         Ok(Ok(p)) => {
             let acc = guarded(std::panic::AssertUnwindSafe(|| { let _ = crate::c05::dump(&p.metadata); Ok::<(), ()>(()) }));
             mark("acc");
+            // `Display` / `Debug` of the parsed (attacker-controlled) values: Header<IndexSignatureTag>, Header<IndexTag>
+            // (→ IndexEntry, IndexData), PackageMetadata (→ Lead, both headers, every entry and its data). Written into a
+            // discarding sink, so that any large allocation seen by the counter is the library's own, not this harness's.
+            let fmt = guarded(std::panic::AssertUnwindSafe(|| -> std::io::Result<()> {
+                use std::io::Write;
+                let mut sink = FmtSink(0);
+                write!(sink, "{}", p.metadata.signature)?;
+                write!(sink, "{}", p.metadata.header)?;
+                write!(sink, "{:?}", p.metadata.lead)?;
+                write!(sink, "{:?}", p.metadata.signature)?;
+                write!(sink, "{:?}", p.metadata)?;
+                write!(sink, "{:#?}", p.metadata.header)?;
+                // nothing printed at all would mean the impls were not reached
+                if sink.0 == 0 { return Err(std::io::Error::new(std::io::ErrorKind::Other, "empty")); }
+                Ok(())
+            }));
+            mark("fmt");
             let dig = guarded(std::panic::AssertUnwindSafe(|| p.verify_digests()));
             mark("digests");
             let sig = guarded(std::panic::AssertUnwindSafe(|| p.verify_signature(RejectAll)));
@@ -101,9 +126,9 @@ fn stages(bytes: &[u8]) -> String {
                 }
             } else { "skip".to_string() };
             mark("iter");
-            out.push_str(&format!(" acc={} digests={} sig={} keyids={} files={} iter={}", cls(acc), cls(dig), cls(sig), cls(key), files, iter));
+            out.push_str(&format!(" acc={} fmt={} digests={} sig={} keyids={} files={} iter={}", cls(acc), cls(fmt), cls(dig), cls(sig), cls(key), files, iter));
         }
-        _ => out.push_str(" acc=skip digests=skip sig=skip keyids=skip files=skip iter=skip"),
+        _ => out.push_str(" acc=skip fmt=skip digests=skip sig=skip keyids=skip files=skip iter=skip"),
     }
     out
 }
